@@ -359,6 +359,24 @@ def stepBirth (w : BWorld) : List String → BWorld × String
     | some nm => ({ w with dm := removeDevice w.dm nm,
                            devs := w.devs.filter (fun e => e.1 != nm) }, "ok")
     | none => (w, "bad-op")
+  | ["devmv", nn, on] =>
+    -- while offline: unregister `on`, register `nn` with the same SimpleMetricManager
+    match unhex nn, unhex on with
+    | some nn, some on =>
+      if w.online then (w, "bad-op") else
+      match w.devs.lookup on with
+      | none => (w, "bad-op")
+      | some o =>
+        match o.kind, o.dead with
+        | .simple, false =>
+          let w1 := { w with dm := removeDevice w.dm on, devs := w.devs.filter (fun e => e.1 != on) }
+          match addDevice w1.cfg w1.h w1.dm nn with
+          | .invalid => (w1, "err invalid")
+          | .dup => (w1, "err dup")
+          | .panic => (w1, "panic")
+          | .ok dm _ => ({ w1 with dm := dm, devs := (nn, { o with tokens := [], order := [] }) :: w1.devs }, "ok")
+        | _, _ => (w, "bad-op")
+    | _, _ => (w, "bad-op")
   | ["online", now, orders] =>
     match now.toNat?, parseOrders orders with
     | some now, some orders =>
